@@ -46,6 +46,8 @@ def build_args(it, spec):
                     v = z3.Real("%s_%d" % (a.name, k)) if isf else z3.Int("%s_%d" % (a.name, k))
                     lo, hi = (a.content[1], a.content[2]) if a.content else ((None, None) if isf else type_range(a.ty))
                     if lo is not None: CTX.hyp += [v >= lo, v <= hi]
+                elif a.content[0] == "fp32":       # IEEE mode: a finite float32
+                    v = z3.FP("%s_%d" % (a.name, k), z3.Float32()); CTX.hyp += [z3.Not(z3.fpIsNaN(v)), z3.Not(z3.fpIsInf(v))]
                 elif a.content[0] == "vals": v = a.content[1][k]; v = Fraction(v) if isf else v
                 else: v = a.content[1][k]
                 o.mem[es * k] = (v, es); cells.append(v)
@@ -151,6 +153,25 @@ def kernels(thorough):
     add("array_stats", "darkflat", [("npx=4", (lambda: [Arr("img", "float", 4), Sc("int", 4), Arr("mn", "float", 1, "out"), Arr("mx", "float", 1, "out"), Arr("mean", "float", 1, "out"), Arr("var", "float", 1, "out")]))], mul="uf")
     add("array_histogram", "darkflat", [("npx=%d nhist=%d" % (n, nh), (lambda n=n, nh=nh: [Arr("img", "float", n), Sc("int", n), Sc("float", Fraction(0)), Sc("float", Fraction(nh)), Arr("hist", "i32", nh, "out"), Sc("int", nh)])) for n, nh in [(2, 1), (2, 2), (3, 3)]],
         note="low=0, high=nhist (unit bins) so that the bin index is linear in the pixel value")
+    def hist_fp(nh, mode, lohi=None):
+        """IEEE mode: mode 'concrete' = given float32 low/high and any finite pixel; 'bounded' = symbolic low/high/pixel of magnitude <= 2^10 with
+        high - low >= 2^-10; 'any' = any finite low < high and pixel"""
+        F32 = z3.Float32(); fv = lambda x: z3.FPVal(x, F32)
+        if mode == "concrete": lo, hi = fv(lohi[0]), fv(lohi[1])
+        else:
+            lo, hi = z3.FP("low", F32), z3.FP("high", F32)
+            CTX.hyp += [z3.Not(z3.fpIsNaN(lo)), z3.Not(z3.fpIsInf(lo)), z3.Not(z3.fpIsNaN(hi)), z3.Not(z3.fpIsInf(hi)), z3.fpLT(lo, hi)]
+        if mode == "bounded":
+            px = z3.FP("img_0", F32)
+            CTX.hyp += [z3.fpLEQ(z3.fpAbs(x), fv(1024.0)) for x in (lo, hi, px)] + [z3.fpGEQ(z3.fpSub(z3.RNE(), hi, lo), fv(0.0009765625))]
+        return [Arr("img", "float", 1, "in", ("fp32",)), Sc("int", 1), Sc("float", lo), Sc("float", hi), Arr("hist", "i32", nh, "out"), Sc("int", nh)]
+    import numpy as _np
+    f32 = lambda x: float(_np.float32(x))
+    HFP = [(-1.0, 1.0, 2), (0.0, 3.0, 3), (f32(0.1), f32(0.7), 3), (-5.5, 1000.25, 7)] + ([(f32(1e-3), f32(65535.3), 10), (-100.0, f32(0.3), 5)] if thorough else [])
+    add("array_histogram", "darkflat", [("IEEE float32, npx=1, low=%r high=%r nhist=%d, any finite pixel" % (lo, hi, nh), (lambda lo=lo, hi=hi, nh=nh: hist_fp(nh, "concrete", (lo, hi)))) for lo, hi, nh in HFP] +
+                                       ([("IEEE float32, npx=1 nhist=%d, |low|,|high|,|pixel| <= 2^10, high - low >= 2^-10" % nh, (lambda nh=nh: hist_fp(nh, "bounded"))) for nh in (2, 3)] +
+                                        [("IEEE float32, npx=1 nhist=2, any finite low < high, any finite pixel", (lambda: hist_fp(2, "any")))] if thorough else []),
+        note="bit-exact float32 semantics (z3 FP, round to nearest even) for img, low, high: the bin index depends on rounding")
     for fn, dty in (("reorder_u16_a32", "u16"), ("reorder_f32_a32", "float"), ("reorderlut_u16_a32", "u16"), ("reorderlut_f32_a32", "float")):
         add(fn, "darkflat", [("N=%d" % n, (lambda n=n, dty=dty, fn=fn: [Arr("data", dty, n), Arr("adr", "u32", n, "in", ("range", 0, n - 1)), Arr("out", dty, n, "out" if "lut" in fn else "work"), Sc("int", n)])) for n in (0, 1, 3)], note="addresses inside the array (documented)")
     for fn in ("array_mean_var_cut", "array_mean_var_msk"):
@@ -185,7 +206,7 @@ def run_variant(mods, k, vname, mk):
                     miss = [c for c in range(n) if (o.esize * c) not in o.mem and not o.zero]
                     if miss: undefined.append("%s[%s]" % (a.name, ",".join(map(str, miss[:4]))))
             if aborted not in (None, "exit") and not it.events: it.events.append(("aborted", aborted, None))
-            return dict(events=list(it.events), undefined=undefined, objs=[(a.name, a.ty, a.count, a.role, cells) for a, o, cells in objs],
+            return dict(events=list(it.events), undefined=undefined, evmodel=getattr(it, "last_model", None), objs=[(a.name, a.ty, a.count, a.role, cells) for a, o, cells in objs],
                         scalars=[(x.ty, x.v) for x in spec if isinstance(x, Sc)], order=[("s", None) if isinstance(x, Sc) else ("a", x.name) for x in spec])
         finally:
             llsym.MULMODE[0] = "nra"; symcore.RNE_MODE[0] = "toint"
@@ -199,11 +220,13 @@ def run_variant(mods, k, vname, mk):
         ev = [e for e in res["events"] if e[0] not in BENIGN]
         m = None
         if ev or res["undefined"]:
-            mm = EX.model([])
+            mm = res.get("evmodel") if ev else None      # the model of the event itself (the path continues inside the bounds afterwards)
+            if mm is None: mm = EX.model([])
             if mm is not None:
                 def ev_(v):
                     if isinstance(v, z3.ExprRef):
                         x = mm.eval(v, model_completion=True)
+                        if isinstance(x, z3.FPRef): x = z3.simplify(z3.fpToReal(x))
                         if z3.is_int_value(x): return x.as_long()
                         try: return float(x.as_fraction())
                         except Exception: return 0.0
